@@ -28,7 +28,13 @@ Shape(bx, out, o) == \A i \in 1..Len(out) :
 MeetsOpen(bx, a, b) == LET cp == SegBoxPart(bx, a, b) IN
     cp # <<>> /\ cp[1] # cp[2] /\ StrictInDoubled(bx, <<cp[1][1]+cp[2][1], cp[1][2]+cp[2][2]>>)
 RingMeetsOpen(bx, r) == \E i \in 1..Len(r) : MeetsOpen(bx, r[i], EdgeB(r, i))
-InDomain(bx, in) == \E r \in AllRingsOf(in) : RingMeetsOpen(bx, r)
+\* the property's domain: some ring boundary meets the open box, and every OUTER ring either meets it, lies strictly
+\* inside it, or lies outside it - an outer ring that surrounds the box or only touches it is outside the domain
+BoundOutside(bx, r) == \/ (\A k1 \in 1..Len(r) : r[k1][1] <= bx[1]) \/ (\A k2 \in 1..Len(r) : r[k2][1] >= bx[3])
+                       \/ (\A k3 \in 1..Len(r) : r[k3][2] <= bx[2]) \/ (\A k4 \in 1..Len(r) : r[k4][2] >= bx[4])
+OuterOK(bx, r) == RingMeetsOpen(bx, r) \/ (\A k \in 1..Len(r) : InBoxOpen(bx, r[k])) \/ BoundOutside(bx, r)
+InDomain(bx, in) == /\ \E r \in AllRingsOf(in) : RingMeetsOpen(bx, r)
+                    /\ \A i \in 1..Len(in) : Len(in[i]) >= 1 /\ OuterOK(bx, in[i][1])
 OnBoxBoundary(bx, p) == InBoxClosed(bx, p) /\ ~InBoxOpen(bx, p)
 \* vertices are taken cyclically; a closed spelling repeats the first vertex, which is skipped
 Core(r) == IF Len(r) >= 2 /\ r[1] = r[Len(r)] THEN SubSeq(r, 1, Len(r) - 1) ELSE r
